@@ -4,6 +4,6 @@ CONSTANTS Extra        \* additional rounds beyond one pass over the longest poo
 VARIABLES s, n
 Init == s \in 1..Len(Shapes) /\ n \in 0..(Rounds(Shapes[s]) + Extra)
 Next == UNCHANGED <<s, n>>
-Emit == PrintT("@@CASE " \o ToJson([shape |-> s, n |-> n, inst |-> Instance(Shapes[s], n),
+Emit == PrintT("@@CASE " \o ToJson([shape |-> s, n |-> n, inst |-> Instance(Shapes[s], n), header |-> Header(s + n),
                                     dev |-> IF Dev_UnsetAggregateElement(Shapes[s], n) THEN "Dev_UnsetAggregateElement" ELSE ""]))
 ====
